@@ -1053,6 +1053,83 @@ fn static_scan() -> Vec<String> {
     hits
 }
 
+/// The fragmented entry point behind the builder aliases: `video` and `set_video_track` are the
+/// same call, also when the track is declared twice (another codec first) with the parameter sets
+/// supplied before, between or after the declarations. Each chain is built once with either alias
+/// in either position; the outcome (Ok / the error), the init segment and a media segment agree.
+fn fragment_builder_alias_part(t: &mut Tally) {
+    use muxide::api::{MuxerBuilder, VideoCodec};
+    let codecs = [VideoCodec::H264, VideoCodec::H265, VideoCodec::Av1, VideoCodec::Vp9];
+    let vc = |c: VideoCodec| match c {
+        VideoCodec::H264 => VCodec::H264,
+        VideoCodec::H265 => VCodec::H265,
+        VideoCodec::Av1 => VCodec::Av1,
+        _ => VCodec::Vp9,
+    };
+    let params = |b: MuxerBuilder<Vec<u8>>, c: VideoCodec| -> MuxerBuilder<Vec<u8>> {
+        match c {
+            VideoCodec::H264 => b.with_sps(frag::sps_of(VCodec::H264, 10)).with_pps(frag::pps_of(VCodec::H264, 6)),
+            VideoCodec::H265 => b.with_vps(frag::vps_of(8)).with_sps(frag::sps_of(VCodec::H265, 10)).with_pps(frag::pps_of(VCodec::H265, 6)),
+            VideoCodec::Av1 => b.with_av1_sequence_header(oracle::frames::av1_seq_obu(&oracle::frames::SeqHdr::default().normalised())),
+            _ => b.with_vp9_config(frag::vp9cfg()),
+        }
+    };
+    let declare = |b: MuxerBuilder<Vec<u8>>, c: VideoCodec, alias: bool, w: u32| if alias { b.set_video_track(c, w, 480, 30.0) } else { b.video(c, w, 480, 30.0) };
+    let mut k = 0u64;
+    for &real in &codecs {
+        for first in std::iter::once(None).chain(codecs.iter().map(|&c| Some(c))) {
+            // where the real codec's parameter sets are supplied: 0 before every declaration,
+            // 1 between the two declarations, 2 after the last one
+            for pos in 0..3u8 {
+                let mut outs: Vec<(String, String, Vec<u8>, Vec<u8>)> = vec![];
+                for alias_first in [false, true] {
+                    for alias_last in [false, true] {
+                        if first.is_none() && alias_first {
+                            continue;
+                        }
+                        k += 1;
+                        t.evaluations += 1;
+                        let mut b = MuxerBuilder::new(Vec::<u8>::new());
+                        if pos == 0 {
+                            b = params(b, real);
+                        }
+                        if let Some(d) = first {
+                            b = declare(b, d, alias_first, 320);
+                        }
+                        if pos == 1 {
+                            b = params(b, real);
+                        }
+                        b = declare(b, real, alias_last, 640);
+                        if pos == 2 {
+                            b = params(b, real);
+                        }
+                        let r = guarded(|| b.new_with_fragment());
+                        let (res, init, seg) = match r {
+                            Err(p) => (format!("panic:{p}"), vec![], vec![]),
+                            Ok(Err(e)) => (format!("Err({e:?})"), vec![], vec![]),
+                            Ok(Ok(mut m)) => {
+                                let init = m.init_segment();
+                                let _ = m.write_video(0, 0, &[1, 2, 3], true);
+                                let _ = m.write_video(3000, 3000, &[4, 5], false);
+                                ("Ok".to_string(), init, m.flush_segment().unwrap_or_default())
+                            }
+                        };
+                        outs.push((format!("first {} last {}", if alias_first { "set_video_track" } else { "video" }, if alias_last { "set_video_track" } else { "video" }), res, init, seg));
+                    }
+                }
+                t.outcome(oracle::report::h64(&outs[0].2));
+                for o in &outs[1..] {
+                    if (&o.1, &o.2, &o.3) != (&outs[0].1, &outs[0].2, &outs[0].3) {
+                        let what = if o.1 != outs[0].1 { "results" } else { "bytes" };
+                        t.violation(&format!("C17/fragment-builder-aliases/{what}"), (500, k), || format!("{:?} declared after {:?}, parameter sets at position {pos}: [{}] gives {} ({} + {} bytes), [{}] gives {} ({} + {} bytes)", vc(real), first.map(vc), outs[0].0, outs[0].1, outs[0].2.len(), outs[0].3.len(), o.0, o.1, o.2.len(), o.3.len()), || json!({"engine": "E1-frag-aliases", "real": format!("{:?}", vc(real)), "first": format!("{:?}", first.map(vc)), "pos": pos}));
+                    }
+                }
+            }
+        }
+    }
+    t.count("fragment_builder_alias_chains", k);
+}
+
 /// Builder call order: the built muxer depends on the *set* of settings, not on the order in
 /// which the setters were called nor on which alias was used. Every permutation of the setter
 /// calls x every alias choice is compared byte-for-byte with the canonical order.
@@ -1254,6 +1331,7 @@ pub fn check(ctx: &Ctx) -> i32 {
     tally.merge(t2);
     convenience_part(&mut tally, if ctx.thorough { 2000 } else { 400 });
     mixed_clock_part(&mut tally);
+    fragment_builder_alias_part(&mut tally);
     if let Err(e) = clock_part(&mut tally) {
         eprintln!("clock machinery failure: {e}");
         return 2;
@@ -1264,7 +1342,7 @@ pub fn check(ctx: &Ctx) -> i32 {
         &tally,
         Meta {
             level: "model_checking",
-            rule: "thread schedules: real OS threads run under a baton scheduler with scheduling points before every public call, inside every sink write and around every invariant-log call; all schedules up to the stated preemption bound are enumerated by stateless DFS (counts in 'counters'), each program's results, output bytes and thread-local invariant log must equal its solo run, and replaying a schedule must reproduce its record; 4 threads: every order of whole programs; 8 and 16 threads: round-robin. Two of the six programs drive a FragmentedMuxer (builder H.264; FragmentConfig H.265 at 48 kHz from a non-zero start) and are scheduled next to progressive programs, next to each other and against themselves. Same thread: every interleaving at call granularity of every ordered pair of the 6 programs on one thread; and every victim program (the four progressive ones and the neighbour's fault-free twin) run on a thread on which a neighbour muxer's finish has just failed - 18 fault histories x every sink write call of the fault-free run x {error, half a buffer then error} x {whole victim afterwards, only its finish afterwards}. Equivalent paths: for every history of a bounded accepted-only set x 20 configurations, the output of a reference run is compared byte-for-byte with a second instance, the four other finish entry points, the builder aliases, audio codec None, six sink types (incl. sinks accepting 1 or 5 bytes per write), and a muxer moved to another thread halfway; builder order: every permutation of the setter calls (video, audio, fast start, metadata) x alias choices x 16 configurations against the canonical order, and every setter called twice (a decoy value, then the real one; either alias; audio codec None to switch audio off again); encode_video/encode_audio vs explicit writes at exactly computed ticks for duration patterns up to the long run, audio frame lengths {constant, 10/20/40/60 ms, alternating} and rejected convenience calls (empty frames) in between. Wall clock: the same digest of outputs under an LD_PRELOAD clock offset of 0 and +10 years (child processes). The auto-trait implication (Muxer<W>: Send for every W: Send; Sync likewise) is a generic function in this harness: it is the compiler's verdict, a build failure of the harness otherwise.".into(),
+            rule: "thread schedules: real OS threads run under a baton scheduler with scheduling points before every public call, inside every sink write and around every invariant-log call; all schedules up to the stated preemption bound are enumerated by stateless DFS (counts in 'counters'), each program's results, output bytes and thread-local invariant log must equal its solo run, and replaying a schedule must reproduce its record; 4 threads: every order of whole programs; 8 and 16 threads: round-robin. Two of the six programs drive a FragmentedMuxer (builder H.264; FragmentConfig H.265 at 48 kHz from a non-zero start) and are scheduled next to progressive programs, next to each other and against themselves. Same thread: every interleaving at call granularity of every ordered pair of the 6 programs on one thread; and every victim program (the four progressive ones and the neighbour's fault-free twin) run on a thread on which a neighbour muxer's finish has just failed - 18 fault histories x every sink write call of the fault-free run x {error, half a buffer then error} x {whole victim afterwards, only its finish afterwards}. Equivalent paths: for every history of a bounded accepted-only set x 20 configurations, the output of a reference run is compared byte-for-byte with a second instance, the four other finish entry points, the builder aliases, audio codec None, six sink types (incl. sinks accepting 1 or 5 bytes per write), and a muxer moved to another thread halfway; builder order: every permutation of the setter calls (video, audio, fast start, metadata) x alias choices x 16 configurations against the canonical order, and every setter called twice (a decoy value, then the real one; either alias; audio codec None to switch audio off again); the fragmented entry point behind either alias (track declared once or twice - another codec first - with the parameter sets supplied before, between or after the declarations: same outcome, init segment and media segment); encode_video/encode_audio vs explicit writes at exactly computed ticks for duration patterns up to the long run, audio frame lengths {constant, 10/20/40/60 ms, alternating} and rejected convenience calls (empty frames) in between. Wall clock: the same digest of outputs under an LD_PRELOAD clock offset of 0 and +10 years (child processes). The auto-trait implication (Muxer<W>: Send for every W: Send; Sync likewise) is a generic function in this harness: it is the compiler's verdict, a build failure of the harness otherwise.".into(),
             bound: format!("preemption bounds as listed per setup in counters; thorough={}", ctx.thorough),
             exhaustive: true,
             assumptions: vec![
